@@ -1013,6 +1013,16 @@ def m_colorspec_set(it, argv, text):
 
 @emodel('WriteColor::reset', 'WriteColor::set_color', '<StandardStream as Write>::write_fmt')
 def m_term_write(it, argv, text):
+    # a write to the terminal can fail like any other write (stderr redirected to a full disk, a closed pipe)
+    # (once it has failed it keeps failing: the disk stays full, the reader of the pipe stays gone -- so the only choice is WHEN it
+    # starts to fail, which keeps the exploration linear in the number of writes)
+    env = it.env
+    if env is not None:
+        if getattr(env, 'stderr_dead', False):
+            return err(io_error('StorageFull'))
+        if env.fault_budget > 0 and env.maybe_fail('stderr', b'/dev/stderr'):
+            env.stderr_dead = True
+            return err(io_error('StorageFull'))
     return ok(UNIT)
 
 
